@@ -141,7 +141,10 @@ class C40(Check):
             diff = next((i for i, (a, b) in enumerate(zip(out, refbytes)) if a != b), min(len(out), len(refbytes)))
             raise Violation("bytes-differ-from-single-thread", f"output differs from the --threads=1 link at offset {diff:#x} "
                             f"(sizes {len(out)} vs {len(refbytes)}) with {exp}")
-        events = slotmodel.all_events(f"{d}/events.txt")
+        try:
+            events = slotmodel.all_events(f"{d}/events.txt")
+        except slotmodel.TraceError as e:
+            raise Inconclusive(f"event log unreadable: {e}")
         try:
             agg = mergemodel.validate_merge_trace(events)
         except mergemodel.TraceError as e:
